@@ -712,7 +712,7 @@ class Weaver:
             return toks[code[0]].pos + 1
         if where == "end":
             return toks[code[-1]].pos
-        m = re.match(r"^(before|after)\s+(last|\d+)\s+`(.*)`$", where)
+        m = re.match(r"^(before-stmt|before|after)\s+(last|\d+)\s+`(.*)`$", where)
         if not m:
             raise AnchorLoss("spec line %d: bad anchor %r" % (ln, where))
         side, ordinal, pat = m.group(1), m.group(2), m.group(3)
@@ -731,6 +731,26 @@ class Weaver:
             if o < 1 or o > len(hits):
                 raise AnchorLoss("fn %s: anchor `%s` occurrence %d not found (%d hits)" % (qname, pat, o, len(hits)))
             s = hits[o - 1]
+        if side == "before-stmt":
+            # start of the statement (or tail expression) that contains the anchor: robust against the anchor ending up inside a
+            # larger expression after a harmless edit (`popped` -> `Some(popped)`)
+            k, depth = s - 1, 0
+            while k >= 0:
+                tx = toks[code[k]].text
+                if tx in (")", "]", "}"):
+                    if tx == "}" and depth == 0:
+                        break       # a block statement ends here
+                    depth += 1
+                elif tx in ("(", "[", "{"):
+                    if depth == 0:
+                        if tx == "{":
+                            break
+                    else:
+                        depth -= 1
+                elif tx == ";" and depth == 0:
+                    break
+                k -= 1
+            return toks[code[k + 1]].pos
         if side == "before":
             return toks[code[s]].pos
         t = toks[code[s + len(ptoks) - 1]]
